@@ -104,7 +104,7 @@ def main(argv=None):
         return EXIT_HARNESS
 
     jobs = args.jobs or min(16, os.cpu_count() or 1)
-    budget = args.budget or (420 if tier == "quick" else 3000)
+    budget = args.budget or (600 if tier == "quick" else 3000)
     deadline = t0 + budget
     tasks = []
     hnames = [h for h in hreg.SERVES[prop] if not args.only or h == args.only]
